@@ -289,6 +289,11 @@ def _circumstance(scn, a, b, prev, op: int, bs: List[int], field: str) -> Dict[s
             out["excuse"] = "nbcd"                # operands that are not BCD digits
         if field == "I" and a[4] == 0 and b[4] == i_before:
             out["pattern"] = "py_zero_rs_kept"
+    if op in (0xC0, 0xC1, 0xC2):
+        # EX/EXW/EXP (m),(n): how the exchange was set up
+        has_pre = bool(bs) and bs[0] in core.PRES
+        out["ex"] = "pre" if has_pre else ("arw" if feat.get("arw") else
+                                           ("overlap" if feat.get("move") not in ("disjoint", None) else "plain"))
     if op in (0xCB, 0xCF) and "excuse" not in out:
         out["move"] = feat.get("move", "?")     # MVL/MVLD (m),(n): overlap direction of source and destination
     if op in (0x2E, 0x4F, 0xFE) and field == "writes":
